@@ -61,3 +61,22 @@ def ring(t, bits):
         return G.Lin(0, {G.strip(t): 1})
     r = go(G.strip(t))
     return None if r is None else red(r)
+
+
+def width_of(t):
+    """bit width of the type a (raw) term is computed in, or None when the term does not say (constants, opaque calls)"""
+    if not isinstance(t, tuple) or not t:
+        return None
+    k = t[0]
+    ty = None
+    if k == "zext":
+        ty = t[3] if len(t) > 3 else None
+    elif k == "bin":
+        ty = t[4] if len(t) > 4 else None
+    elif k == "wrap":
+        ty = t[3] if len(t) > 3 else None
+    elif k == "fld":
+        ty = t[4] if len(t) > 4 else None
+    elif k == "cast":
+        ty = t[3] if len(t) > 3 else None
+    return T.INT_BITS.get(ty)
